@@ -38,6 +38,10 @@ class Interpreter {
         continue;
       }
       this.impl.start_evaluating(line);
+      if (this.impl.get_state() === JsInterpreterState.Errored) {
+        // Stop loading; the error will be shown once we're started.
+        return;
+      }
     }
     this.impl.start_evaluating("RUN");
   }
